@@ -261,9 +261,17 @@ def c10_step(tr, st, c):
         if p_ and p_["post"] is not None and "trackers" in p_["post"]:
             last = p_["post"]["trackers"]
             break
-    if ph and ph["post"] is not None and not ph.get("exc") and dt == 1:
+    # the schedule is the one the caller asked for (scenario), not what the Event object ended up holding.
+    # For every step length: steps are taken at times 0, dt, 2 dt, ...; after the life-cycle phase of the step at
+    # time t an event is pending iff t < occ, happening iff occ <= t < occ + dur, in a later stage iff t >= occ + dur
+    # (the first step whose time reaches the occurrence applies the shock; C10Dt.shock_in_force_dt)
+    spec = tr.sc["events"] if len(tr.sc["events"]) == len(ph["pre"]["trackers"] if ph and ph.get("pre") else []) else None
+    if ph and ph["post"] is not None and not ph.get("exc"):
         for i, (a, b) in enumerate(zip(ph["pre"]["trackers"], ph["post"]["trackers"])):
-            occ, dur = a["occ"], a["dur"]
+            occ, dur = (spec[i]["occ"], spec[i]["dur"]) if spec is not None else (a["occ"], a["dur"])
+            if (a["occ"], a["dur"]) != (occ, dur):
+                out.append(viol("C10", t, f"event {i} was requested with occurrence {occ} and duration {dur} but holds occurrence {a['occ']} and duration {a['dur']}"))
+                continue
             st_b = b["status"]
             if t < occ and st_b != "pending":
                 out.append(viol("C10", t, f"event {i} acts before its occurrence {occ}", status=st_b))
